@@ -149,6 +149,11 @@ def run_shard(shard):
                     check_case(acc, m, "exec", "seed-layout")
         for s in EVAL_SEEDS:
             check_case(acc, s, "eval", "seed-eval")
+        # the three line-end conventions of universal newlines, pure and mixed
+        for s in gen_py.SEEDS:
+            check_case(acc, s.replace("\n", "\r"), "exec", "seed-cr")
+            ends = iter(rnd.choice(["\n", "\r\n", "\r"]) for _ in range(s.count("\n") + 1))
+            check_case(acc, "".join(ch if ch != "\n" else next(ends) for ch in s), "exec", "seed-mixed-line-ends")
         for s in ("\u00b5 = 2\n", "x.\ufb01 = 1\n", "def f(\u00b5=1): return \u00b5\n", "import \u00b5 as \ufb01\n", "\u00e9 = f(x)\n", "x\U000e0100 = 1\n"):
             check_case(acc, s, "exec", "unicode-identifier")
         # indentation that contains form feeds: a form feed resets the column, so only what follows the last one counts
@@ -166,6 +171,12 @@ def run_shard(shard):
                             ln = rnd.choice(["\f", " \f", "\f\f", "  \f"]) + ln
                         out.append(ln)
                     check_case(acc, "\n".join(out), "exec", "formfeed-indent")
+        # lines that hold only a backslash continuation after their indentation
+        for tmpl in FF_TEMPLATES:
+            for unit in ("    ", "\t", "  "):
+                plain = tmpl.replace("{1}", unit).replace("{2}", unit * 2)
+                for _ in range(shard.get("mutants", 3) * 3):
+                    check_case(acc, gen_py.backslash_line_mutant(rnd, plain), "exec", "backslash-line")
         for d in (3, 8, 12, 16, 20, 23, 25, 27, 30, 34, 40, 50):
             for o, c in ("()", "[]", "{}"):
                 check_case(acc, "x = " + o * d + ("1" if o != "{" else "") + c * d + "\n", "exec", "nesting")
